@@ -80,9 +80,10 @@ def alternative_or_next(type_: Union[RDREdge.Alternative, RDREdge.Next],
     """
     new_branch = chained_logic(AND, *conditions)
     current_node = SymbolicExpression._current_parent_()
-    if isinstance(current_node._parent_, (Alternative, Next)):
-        current_node = current_node._parent_
-    elif isinstance(current_node._parent_, ExceptIf) and current_node is current_node._parent_.left:
+    # Climb to the top of the rule this branch is an alternative/next of: past the alternatives/nexts already attached
+    # to it and past the refinements that wrap it (where it is the refined, i.e. left, side).
+    while (isinstance(current_node._parent_, (Alternative, Next))
+           or (isinstance(current_node._parent_, ExceptIf) and current_node is current_node._parent_.left)):
         current_node = current_node._parent_
     prev_parent = current_node._parent_
     current_node._parent_ = None
